@@ -584,7 +584,28 @@ func sortedBeforeUse(info *types.Info, after []ast.Stmt, s types.Object) bool {
 		default:
 			return false
 		}
-		return identObj(info, call.Args[0]) == s
+		if identObj(info, call.Args[0]) != s {
+			return false
+		}
+		// a comparator that orders by source POSITION does not make the order a function of the package: positions are
+		// handed out in the order files were added to the FileSet (parse order, possibly concurrent)
+		byPos := false
+		for _, a := range call.Args[1:] {
+			ast.Inspect(a, func(m ast.Node) bool {
+				if c2, ok := m.(*ast.CallExpr); ok {
+					if sel, ok := c2.Fun.(*ast.SelectorExpr); ok && (sel.Sel.Name == "Pos" || sel.Sel.Name == "End") && len(c2.Args) == 0 {
+						byPos = true
+					}
+				}
+				if sel, ok := m.(*ast.SelectorExpr); ok {
+					if t := info.TypeOf(sel); t != nil && strings.HasSuffix(t.String(), "token.Pos") {
+						byPos = true
+					}
+				}
+				return true
+			})
+		}
+		return !byPos
 	}
 	return false
 }
